@@ -111,6 +111,38 @@ static void odd_keys(Stats &st, const Args &a) {
 // until a signature whose r starts with a zero octet, one whose s does, and (where it is likely enough) one where both do have
 // been seen, then apply all nine ecdsa-special re-encodings under both providers and all four routes.
 static std::string sig_class(const Case &c);
+// ---- "under that key": the key a checker holds is the one it was given, also when an earlier key object lived at the same address.
+// With a recycling allocator installed: load key A, verify A's token, free A's set; load key B of the same type (its item lands where
+// A's was), and a checker holding B must reject A's token and accept B's. Likewise the builder must sign with B.
+static void same_address_other_key(Stats &st, const Args &a) {
+  struct Pair { const char *a, *b; jwt_alg_t alg; };
+  static const Pair pairs[] = {{"rsa_2048", "rsa_2048b", JWT_ALG_RS256}, {"rsa_2048", "rsa_2048b", JWT_ALG_PS384}, {"ec_p256", "ec_p256b", JWT_ALG_ES256}, {"ec_p384", "ec_p384b", JWT_ALG_ES384}, {"ec_p521", "ec_p521b", JWT_ALG_ES512},
+                               {"ec_k256", "ec_k256b", JWT_ALG_ES256K}, {"ed25519", "ed25519b", JWT_ALG_EDDSA}, {"ed448", "ed448b", JWT_ALG_EDDSA}, {"oct64", "oct64b", JWT_ALG_HS256}, {"oct64", "oct64b", JWT_ALG_HS512}};
+  int idx = 0;
+  for (const Pair &pr : pairs) for (int prov = 0; prov < 2; prov++) for (int priv = 0; priv < 2; priv++) {
+    if ((idx++ % a.nworkers) != a.worker) continue;
+    if (prov == 1 && pr.alg == JWT_ALG_ES256K) continue;
+    const KeySpec &A = POOL.get(pr.a), &B = POOL.get(pr.b); bool oct = A.kind == K_OCT;
+    std::string hdr = std::string("{\"alg\":\"") + jwt_alg_str(pr.alg) + "\"}", tokA = ref_token(A, pr.alg, hdr, "{\"k\":\"A\"}"), tokB = ref_token(B, pr.alg, hdr, "{\"k\":\"B\"}");
+    set_provider(prov); jwt_set_alloc(recycle_malloc, recycle_free);
+    std::string bad; const void *addrA = nullptr, *addrB = nullptr; long reused0 = recycler().reused;
+    { JwkOpts o; o.priv = priv || oct; o.kid = "same-address"; LKey ka(jwk_json(A, o)); addrA = ka.item;
+      jwt_checker_t *ch = jwt_checker_new(); if (ka.item && !jwt_checker_setkey(ch, pr.alg, ka.item)) { if (jwt_checker_verify(ch, tokA.c_str())) bad = "first-key-rejects-its-own-token"; } jwt_checker_free(ch);
+      if (bad.empty() && (priv || oct) && ka.item) { jwt_builder_t *b = jwt_builder_new(); if (!jwt_builder_setkey(b, pr.alg, ka.item)) { char *t = jwt_builder_generate(b); free(t); } jwt_builder_free(b); } }   // ka freed here
+    if (bad.empty()) { JwkOpts o; o.priv = priv || oct; o.kid = "same-address"; LKey kb(jwk_json(B, o)); addrB = kb.item;
+      jwt_checker_t *ch = jwt_checker_new();
+      if (kb.item && !jwt_checker_setkey(ch, pr.alg, kb.item)) {
+        if (jwt_checker_verify(ch, tokA.c_str()) == 0) bad = "accepts-token-signed-by-the-key-that-lived-at-this-address-before";
+        else if (jwt_checker_verify(ch, tokB.c_str()) != 0) bad = "rejects-token-of-the-key-it-holds";
+      }
+      jwt_checker_free(ch);
+      if (bad.empty() && (priv || oct) && kb.item) { jwt_builder_t *b = jwt_builder_new(); if (!jwt_builder_setkey(b, pr.alg, kb.item)) { char *t = jwt_builder_generate(b); if (t && !ref_valid(B, t)) bad = "builder-signs-with-the-key-that-lived-at-this-address-before"; free(t); } jwt_builder_free(b); } }
+    jwt_set_alloc(NULL, NULL);
+    st.evaluations++; st.cls("same-address-other-key"); if (addrA && addrA == addrB) { st.cls("same-address-other-key:item-address-reused"); st.nontrivial(mix(fnv(pr.a), mix(pr.alg, prov * 2 + priv))); }
+    (void)reused0;
+    if (!bad.empty()) { st.violation("C01:" + bad + ":" + prov_name(prov), "a key object loaded where a freed one had been is confused with it", "{\"kind\":\"same-address\",\"prov\":" + std::to_string(prov) + ",\"a\":\"" + pr.a + "\",\"b\":\"" + pr.b + "\",\"alg\":\"" + jwt_alg_str(pr.alg) + "\",\"priv\":" + std::to_string(priv) + "}"); return; }
+  }
+}
 static void ecdsa_specials(Stats &st, const Args &a) {
   std::vector<std::pair<size_t, int>> ec; for (size_t ki = 0; ki < KEYS.size(); ki++) for (int ai = 0; ai < NALGS; ai++) if (KEYS[ki]->kind == K_EC && strength_ok(*KEYS[ki], ALGS[ai].alg)) ec.push_back({ki, ai});
   for (size_t ci = 0; ci < ec.size(); ci++) {
@@ -155,6 +187,7 @@ int main(int argc, char **argv) {
 
   if (!a.replay.empty()) {
     J j = J::parse(read_file(a.replay)); if (!j) return 2;
+    if (json_object_get(j.p, "kind") && !strcmp(json_string_value(json_object_get(j.p, "kind")), "same-address")) { Args a1 = a; a1.worker = 0; a1.nworkers = 1; same_address_other_key(st, a1); return st.violations.empty() ? 0 : 3; }
     if (json_object_get(j.p, "kind")) { OddCase o{(int)json_integer_value(json_object_get(j.p, "prov")), json_string_value(json_object_get(j.p, "jwk")), json_string_value(json_object_get(j.p, "alg")), from_latin1_utf8(json_string_value(json_object_get(j.p, "token"))), ""};
       return run_odd(o, 0) == 1 || run_odd(o, 1) == 1 ? 3 : 0; }
     Case c; c.prov = (int)json_integer_value(json_object_get(j.p, "prov")); c.cfg = (int)json_integer_value(json_object_get(j.p, "cfg")); c.pay = 0;
@@ -171,6 +204,8 @@ int main(int argc, char **argv) {
   odd_keys(st, a);
   if (!st.violations.empty()) return finish();
   ecdsa_specials(st, a);
+  if (!st.violations.empty()) return finish();
+  same_address_other_key(st, a);
   if (!st.violations.empty()) return finish();
   uint64_t n = a.thorough() ? 150000 : 2500;
   if (a.kv.count("cases")) n = strtoull(a.kv["cases"].c_str(), 0, 10);
